@@ -723,6 +723,22 @@ def algo_call(ex, n, st, name, argn):
         dst, cnt, val = [ex.ev(a, st) for a in argn]
         fill_range(ex, st, dst, cnt.t, real(val))
         return PtrV(dst.region, dst.off + cnt.t)
+    if name == 'fill':
+        # std::fill(first, last, value): every element of [first,last) becomes value (member by member for POD structs)
+        a, b, val = [ex.ev(x, st) for x in argn]
+        if isinstance(val, ObjRef):
+            val = ex.load(LObj(val), st) if 'LObj' in globals() else val
+        if not (isinstance(a, PtrV) and isinstance(b, PtrV) and a.region == b.region and a.region is not None):
+            raise ExtractionError('fill iterators of different ranges')
+        cnt = b.off - a.off
+        if isinstance(val, StructV):
+            for lf, fv in val.fields.items():
+                lct = st.leafct.get((a.region, lf)) or getattr(fv, 'ct', FLOAT)
+                fill_range(ex, st, a, cnt, real(fv) if lct.kind == 'float' else fv.t, leaf=lf, ct=lct)
+        else:
+            lct = st.leafct.get((a.region, '')) or getattr(val, 'ct', FLOAT)
+            fill_range(ex, st, a, cnt, real(val) if lct.kind == 'float' else val.t, leaf='', ct=lct)
+        return VoidV()
     if name == 'inner_product':
         a, b, c, init = [ex.ev(x, st) for x in argn]
         cnt = b.off - a.off
